@@ -127,7 +127,15 @@ func recoveryScenario(name string, quick bool, outcomes []string, expired, token
 				case o == "status7":
 					pc.Send(respFrame(f, 7, errBody(7, "internal")))
 				case o == "unauth" && f.Cmd == 3:
-					pc.Send(respFrame(f, 5, errBody(401, "session invalid")))
+					// "rejected as unauthenticated" is the status of the answer; its body may be a well-formed error message, text that is no
+					// error message in the connection's codec, or empty
+					body := errBody(401, "session invalid")
+					if strings.Contains(name, "plain-body") {
+						body = []byte("session not found")
+					} else if strings.Contains(name, "empty-body") {
+						body = nil
+					}
+					pc.Send(respFrame(f, 5, body))
 				default:
 					pc.Send(respFrame(f, 0, authBody(fmt.Sprintf("session-%d", pc.N), time.Hour)))
 				}
@@ -252,6 +260,8 @@ func init() {
 	recoveryScenario("c08/expired-reauth", true, []string{"ok"}, true, true, 0)
 	recoveryScenario("c08/no-auth", true, []string{"ok"}, false, false, 0)
 	recoveryScenario("c08/unauthenticated-fallback", true, []string{"unauth"}, false, true, 0)
+	recoveryScenario("c08/unauthenticated-fallback-plain-body", true, []string{"unauth"}, false, true, 0)
+	recoveryScenario("c08/unauthenticated-fallback-empty-body", true, []string{"unauth"}, false, true, 0)
 	recoveryScenario("c08/drop-then-ok", true, []string{"drop", "ok"}, false, true, 0)
 	recoveryScenario("c08/refuse-then-ok", true, []string{"refuse", "ok"}, false, true, 0)
 	recoveryScenario("c08/close-packet-resume-silent-then-ok", true, []string{"silent", "ok"}, false, true, 0)
